@@ -1385,3 +1385,46 @@ def par_6c(ctx, rep):
                '%s: something other than the parser depends on the mode, so the strict and the recovering parse no longer '
                'see the same tokens / text' % why)
     rep.minimum('PAR-6c', 2)
+
+
+# ---------------------------------------------------------------------------------------------------------------
+# PAR-15  the parser does not walk the tree it is building
+def par_15(ctx, rep):
+    """The engine is iterative (PAR-13) and so is recovery: the only recursive tree method the parser modules call is
+    get_last_leaf (it follows the chain of last children only).  A rendering / searching traversal that recurses once or
+    more per nesting level (get_code: three frames per level) overflows the interpreter stack on input well inside the
+    100 levels the property allows - also when it is only evaluated as the argument of a logging call (seed rt14-C02)."""
+    rep.rule('PAR-15', 'the parser modules call no recursive method of the tree classes other than get_last_leaf: building and '
+                       'recovering never need interpreter stack in proportion to the depth of the tree')
+    cg = ctx.cg
+    tree_funcs = {k for k, f in ctx.prog.funcs.items() if k[0] in (TREE, PYTREE) and f.cls is not None}
+    # methods on a call cycle inside the tree modules
+    recursive = set()
+    for k in tree_funcs:
+        seen, todo = set(), [t for t in cg.edges.get(k, ()) if t in tree_funcs]
+        while todo:
+            x = todo.pop()
+            if x == k:
+                recursive.add(k)
+                break
+            if x in seen:
+                continue
+            seen.add(x)
+            todo += [t for t in cg.edges.get(x, ()) if t in tree_funcs and t not in seen]
+    rep.stat('recursive_tree_methods', sorted({k[1].split('.')[-1] for k in recursive}))
+    allowed = {'get_last_leaf': 'follows the chain of last children only; used to look at the last leaf before an error'}
+    n = 0
+    for key, f in sorted(ctx.prog.funcs.items()):
+        if key[0] not in (BASE, PY):
+            continue
+        for site in cg.sites[key]:
+            hits = sorted({t.name for t in site.targets if t.key in recursive})
+            if not hits:
+                continue
+            n += 1
+            bad = [h for h in hits if h not in allowed]
+            rep.ob('PAR-15', key[0], f.qual, norm(site.node), not bad,
+                   'the parser calls the recursive tree method %s: one or more interpreter frames per nesting level while a '
+                   'tree is being built or recovered - deep input inside the supported bound raises RecursionError' % bad,
+                   reason=allowed.get(hits[0], ''))
+    rep.minimum('PAR-15', 1)
